@@ -464,8 +464,27 @@ fn ctx_src(ctx: usize, k: usize, t: &str, lit: &str) -> String {
     }
 }
 
-const N_UCTX: usize = 5;
-const UCTX_NAMES: [&str; N_UCTX] = ["local", "global", "arith", "arith-rev", "neg"];
+const N_UCTX: usize = 14;
+const UCTX_NAMES: [&str; N_UCTX] = [
+    "local", "global", "arith", "arith-rev", "neg",
+    // the literal wrapped in an expression that passes its value through unchanged
+    "paren", "comptime", "block", "if", "switch-arm", "array-elem", "labelled-break", "paren-arith", "assign-paren",
+];
+
+/// statements defining `x` from the unannotated literal in wrapper context `ctx` (>= 5)
+fn wrapper_stmts(ctx: usize, k: usize, lit: &str) -> String {
+    match ctx {
+        5 => format!("x := ({lit});"),
+        6 => format!("x := comptime {{ {lit} }};"),
+        7 => format!("x := {{ {lit} }};"),
+        8 => format!("x := if true {{ {lit} }} else {{ 1 }};"),
+        9 => format!("o{k} : ?i64 = nil; x := switch v in o{k} {{ i64 => 1, nil => {lit} }};"),
+        10 => format!("a{k} := .[{lit}, 1]; x := a{k}[0];"),
+        11 => format!("x := `w{k}: {{ break `w{k} {lit}; }};"),
+        12 => format!("x := ({lit}) + 0;"),
+        _ => format!("x := 3000000000; x = ({lit});"),
+    }
+}
 
 fn uctx_src(ctx: usize, k: usize, lit: &str) -> String {
     match ctx {
@@ -473,7 +492,8 @@ fn uctx_src(ctx: usize, k: usize, lit: &str) -> String {
         1 => format!("c{k} :: {lit};\n"),
         2 => format!("c{k} :: () {{ x := {lit} + 0; }}\n"),
         3 => format!("c{k} :: () {{ x := 0 + {lit}; }}\n"),
-        _ => format!("c{k} :: () {{ x := -{lit}; }}\n"),
+        4 => format!("c{k} :: () {{ x := -{lit}; }}\n"),
+        _ => format!("c{k} :: () {{ {} }}\n", wrapper_stmts(ctx, k, lit)),
     }
 }
 
@@ -548,6 +568,10 @@ fn e2e_program(cases: &[E2eCase]) -> String {
             // core.println misprints some negative 64-bit numbers, so −lit is observed through
             // (−lit) + lit at i64, which must be 0
             ("neg", _) => body.push_str(&format!("    {{ x := -{}; y : i64 = {}; z := i64.(x) + y; {} }}\n", c.lit, c.value, print("z"))),
+            (how, None) if UCTX_NAMES.iter().position(|n| *n == how).is_some_and(|i| i >= 5) => {
+                let ctx = UCTX_NAMES.iter().position(|n| *n == how).unwrap();
+                body.push_str(&format!("    {{ {} {} }}\n", wrapper_stmts(ctx, k, &c.lit), print("x")))
+            }
             _ => body.push_str(&format!("    {{ x := {}; {} }}\n", c.lit, print("x"))),
         }
     }
@@ -582,7 +606,7 @@ fn build_note(o: &e2e::Outcome) -> String {
 pub fn run(tier: &str, seed: u64, widen: bool) -> Report {
     let mut rep = Report::new(
         "C09",
-        "A: real lexer+parser+hir::lower on integer spellings vs Lean lowerInt; F: the same on string/char literals vs lowerString/lowerChar; B/C: real hir_ty (in-process front end) on annotated / unannotated literals in 15+5 syntactic contexts vs acceptsAt / defaultTy; D: real capy CLI + built executable printing every accepted literal vs finalValue; E: float literal bit patterns at run time vs Rust str::parse",
+        "A: real lexer+parser+hir::lower on integer spellings vs Lean lowerInt; F: the same on string/char literals vs lowerString/lowerChar; B/C: real hir_ty (in-process front end) on annotated / unannotated literals in 15+14 syntactic contexts (unannotated: local, global, arithmetic, negation, and nine value-preserving wrappers: parentheses, comptime block, block, if, switch arm, array element, labelled break, parenthesised operand, parenthesised assignment) vs acceptsAt / defaultTy; D: real capy CLI + built executable printing every accepted literal vs finalValue; E: float literal bit patterns at run time vs Rust str::parse",
         "exhaustive boundary set: 0,1,9,10,100,255,256,1000, 2^w-2..2^w+1 for w in {7,8,15,16,31,32,63,64}, 3e9, 1e19, 1.8e19, 2^64±6, 2e19, 1e20, 2^65, 10*2^64; every value in every systematic spelling (plain, thousands separators, leading zeros, e0, every trailing-zero exponent form, hex lower/upper/padded, binary/padded) plus seeded random separator/case/padding variations and random mantissa/exponent spellings; annotated at all 12 integer types in 15 contexts, unannotated in 5; every escape character (all printable ASCII after a backslash + non-ASCII) valid or not, in strings and chars; non-trivial = value within 2 of a type boundary, a spelling with separator/exponent/radix prefix, or a literal with an escape; distinct by (stream, context, type, spelling)",
     );
     if std::env::var("CVH_LOUD").is_ok() {
@@ -883,7 +907,7 @@ pub fn run(tier: &str, seed: u64, widen: bool) -> Report {
                     if is_zero_times_huge_power(text) {
                         continue; // 0e20-style spellings are rejected by the lowering (stream A)
                     }
-                    if ctx <= 1 || i < 4 || thorough {
+                    if ctx <= 1 || (ctx < 5 && i < 4) || i < 2 || thorough {
                         c_cases.push((ctx, text.clone(), *v));
                     }
                 }
